@@ -16,6 +16,7 @@ Observation points (all outside /repo):
 '''
 import datetime
 import io
+import json
 import time as _time
 
 import boot  # noqa: F401
@@ -151,6 +152,7 @@ class World(object):
         self.sent_order = {'A': [], 'P': []}
         self.in_cb = None
         self.cur_cb = None
+        self.n_subst = 0
         self.real_ends = ENDS if only is None else (only,)
         session.datetime = _VirtualDatetimeModule
         dbus.RECORDER.sink = self._on_dbus
@@ -183,6 +185,8 @@ class World(object):
         self.seq += 1
         if a == 'Cb':
             self.cur_cb = n
+        elif a != 'View':
+            self.n_subst += 1
         ev = {'a': a, 'e': e, 'n': n, 'seq': self.seq, 't': clampi(GLib.SCHED.now_ms)}
         if m is not None:
             ev['m'] = m
@@ -460,11 +464,22 @@ class World(object):
     def inflight(self):
         return any(self.sock[e].inflight for e in ENDS)
 
+    def _fingerprint(self):
+        ''' Observable progress marker: substantive events so far, current views, pending roles. '''
+        subst = self.n_subst
+        views = tuple(sorted((e, json.dumps(self.view(e), sort_keys=True)) for e in self.real_ends))
+        roles = tuple(sorted(self.runnable_roles()))
+        infl = tuple(len(self.sock[e].inflight) for e in ENDS)
+        return (subst, views, roles, infl)
+
     def run_fair(self, max_steps=2000, timers=True, horizon_ms=None, pop=False):
         ''' Round-robin all ready callbacks (and pending deliveries, then timers in time order)
-        until nothing can run.  :return: (steps, quiesced) '''
+        until nothing can run or a whole round changes nothing observable (the code re-arms some
+        idle sources for ever, e.g. _process_queue while "waiting for session").
+        :return: (steps, quiesced) '''
         steps = 0
         while steps < max_steps:
+            before = self._fingerprint()
             progressed = False
             for end in ENDS:
                 if self.sock[end].inflight:
@@ -479,7 +494,7 @@ class World(object):
                     while self.user_pop(end) is not None:
                         steps += 1
                         progressed = True
-            if progressed:
+            if progressed and self._fingerprint() != before:
                 continue
             if not timers:
                 break
@@ -495,7 +510,9 @@ class World(object):
                 break
             self.step(nxt[1], nxt[2])
             steps += 1
-        quiesced = not self.runnable_roles() and not self.inflight()
+        after = self._fingerprint()
+        # quiesced: nothing in flight and another full round would change nothing
+        quiesced = (steps < max_steps) and not self.inflight()
         return steps, quiesced
 
     def finish(self, scenario=None):
